@@ -281,6 +281,12 @@ func ruleR14(p *Prog) []Ob {
 			ob := Ob{Rule: "R14", Inst: "a:wait-before-consume:" + label, Props: props, Pos: p.at(waits[0]), Func: label, Nontrivial: true}
 			var bad []string
 			for _, w := range waits {
+				// one wait, then one consume whose result is the answer: a wrapper that goes back to
+				// waiting when the consume had nothing spins wherever the wait returns at once
+				// (relative offsets, offsets below the next offset) and never hands an empty result on
+				if _, loop := innermostLoop(w.Block()); loop != nil {
+					bad = append(bad, p.at(w)+": the wait is inside a loop: the call does not return what Consume returns when it is woken")
+				}
 				args := w.Call.Args // recv, ctx, offset
 				okCtx, okOff := false, false
 				for _, pr := range fn.Params {
